@@ -19,6 +19,10 @@ struct Case {
 	default_stream: bool,
 	/// convert the written container once more into this format
 	chain: Option<Target>,
+	/// an older container of the same format (other payloads, one more level, written by the
+	/// harness's encoder with this layout seed) already lies at the target path; file formats only
+	#[serde(default)]
+	over_existing: Option<u32>,
 }
 
 fn strategy(target: Target, big: bool) -> impl Strategy<Value = Case> {
@@ -28,9 +32,9 @@ fn strategy(target: Target, big: bool) -> impl Strategy<Value = Case> {
 	if target == Target::Dir {
 		cfg.max_side = 12;
 	}
-	(gen::set_spec(cfg), any::<bool>(), proptest::option::weighted(0.25, 0usize..5)).prop_map(move |(spec, default_stream, chain)| {
+	(gen::set_spec(cfg), any::<bool>(), proptest::option::weighted(0.25, 0usize..5), proptest::option::weighted(0.2, any::<u32>())).prop_map(move |(spec, default_stream, chain, over_existing)| {
 		let chain = chain.map(|i| Target::ALL[i]).filter(|t| t.accepts(spec.format, spec.comp));
-		Case { target, spec, default_stream, chain }
+		Case { target, spec, default_stream, chain, over_existing: over_existing.filter(|_| target != Target::Dir) }
 	})
 }
 
@@ -78,7 +82,18 @@ fn oracle(case: &Case, obs: &mut Obs) -> Result<(), Fail> {
 	let path = case.target.fresh_path();
 	let _g = TmpGuard(path.clone());
 	let mut src = mem_reader(&set, case.default_stream);
-	let ctx = format!("{} {:?}/{:?}", case.target.name(), case.spec.format, case.spec.comp);
+	let mut ctx = format!("{} {:?}/{:?}", case.target.name(), case.spec.format, case.spec.comp);
+	if let Some(seed) = case.over_existing {
+		let mut old = case.spec.clone();
+		old.tag = format!("{}-old", old.tag);
+		old.pay = vt::model::Pay::CoordText;
+		old.really_compressed = false;
+		old.levels.push(vt::model::LevelSpec { z: 5, x0: 3, y0: 3, w: 6, h: 6, shape: vt::model::Shape::Dense, seed });
+		let old_path = vt::sources::encode_fixture(&old.materialise(), case.target, seed)?;
+		std::fs::rename(&old_path, &path).map_err(|e| Fail::new("harness:io", format!("{e}")))?;
+		ctx.push_str(" (written over an existing, older container)");
+		obs.label("target-path-held-an-older-container");
+	}
 	write_with_repo(&mut src, &path)?;
 	check_container(case.target, &path, &set, &case.spec, obs, &ctx, case.target != Target::Mbtiles)?;
 
@@ -157,6 +172,7 @@ fn main() {
 	);
 	check.assume("independent decoders implement DESIGN.md Appendix A; flate2, brotli, rusqlite are trusted for the generic layers");
 	check.assume("empty tile sets and empty payloads are outside the asserted domain");
+	check.assume("a directory target is written into a fresh directory (what writing into a directory that already holds tiles means is not stated anywhere); file targets are also written over an existing older container");
 	vt::engine::watchdog(3600);
 	vt::codec::pmtiles::self_test();
 	for t in Target::ALL {
